@@ -474,7 +474,11 @@ def repeatBytes (b : Bytes) : Nat → Bytes
 def handle : List Sexp → Option String
   | [.atom "STREAM", .atom kind, .atom codec, .atom hex, .list sizes] => do
       let k ← kindOf kind
-      let cfg : ParseCfg := { allowIndef := codec != "der" }
+      let cfg : ParseCfg ← match codec with
+        | "ber" => some Generated.berDecByType.parse
+        | "cer" => some Generated.cerDecByType.parse
+        | "der" => some Generated.derDecByType.parse
+        | _ => none
       let d ← hexArg hex
       let ns ← natsOf sizes
       let chunks := splitSizes d ns
